@@ -1,4 +1,6 @@
 import Pds.Proofs.KernelTie.BloomOps
+import Pds.Proofs.KernelTie.Cuckoo
+import Pds.Proofs.KernelTie.CuckooUnion
 /-!
 # C01 — tie by translation (flow mode): the loops of `BloomFilter::insert` and `BloomFilter::query`
 -/
@@ -30,5 +32,24 @@ theorem bloom_query_translated (hash : List Nat → Nat) (s : St) (x : Nat) (ps 
   unfold Bloom.query
   rw [hps]
   rfl
+
+/-! ### cuckoo filter: fingerprint, query, insert, union as translated -/
+open Pds.Cuckoo in
+theorem cuckoo_fingerprint_translated (hash : List Nat → Nat) (lf x : Nat) :
+    cuckoo_fingerprint lf (hash [0, x]) = Cuckoo.fingerprint hash lf x := cuckoo_fingerprint_eq hash lf x
+
+open Pds.Cuckoo in
+theorem cuckoo_insert_translated {R : Type} (I : RngI R) (hash : List Nat → Nat) (kicks : Nat) (s : Cuckoo.St R) (x : Nat) :
+    cuckoo_insert R I (bucketOf hash s.nb) s.bs s.table.toList s.n s.rng (start hash s x).1 (start hash s x).2.1 (start hash s x).2.2 kicks =
+      match Cuckoo.insert I hash kicks s x with
+      | none => Flow.panic
+      | some (s', r) => Flow.ret (resB r, (s'.table.toList, s'.n, s'.rng)) := cuckoo_insert_eq' I hash kicks s x
+
+open Pds.Cuckoo in
+theorem cuckoo_union_translated {R : Type} (I : RngI R) (hash : List Nat → Nat) (kicks : Nat) (s o : Cuckoo.St R) (hbs : 0 < s.bs) :
+    cuckoo_union R I (bucketOf hash s.nb) s.bs s.nb s.lf s.table.toList s.n s.rng o.table.toList o.bs o.nb o.lf kicks =
+      match Cuckoo.union I hash kicks s o with
+      | none => Flow.panic
+      | some (s', r) => Flow.ret (resB r, (s'.table.toList, s'.n, s'.rng)) := cuckoo_union_eq I hash kicks s o hbs
 
 end Pds.Tie.C01
